@@ -30,7 +30,6 @@ open Lungo.C01
 #print axioms Lungo.C01.refines_dropIndex
 #print axioms Lungo.C01.refines_dropAllIndexes
 #print axioms Lungo.C01.refines_dropIndexByKey
-#print axioms Lungo.C01.api_refines_partial
 #print axioms Lungo.C01.api_refines_run_from
 #print axioms Lungo.C01.api_refines_run
 #print axioms Lungo.C01.refines_createIndex
@@ -40,3 +39,7 @@ open Lungo.C01
 #print axioms Lungo.C01.refines_replaceOne
 #print axioms Lungo.C01.refines_findOneAndReplace
 #print axioms Lungo.C01.refines_bulkWrite
+#print axioms Lungo.C01.refines_expire
+#print axioms Lungo.C01.handles_distinct
+#print axioms Lungo.C01.handles_distinct_step
+#print axioms Lungo.C01.api_refines
